@@ -322,39 +322,9 @@ func checkC12(c *Ctx, r *Report) {
 	}
 
 	// ---- R3 ---------------------------------------------------------------
-	r3 := r.Rule("C12-R3", "E1", 2, "connectednessUnlocked returns Connected only on an open, non-limited connection")
+	r3 := r.Rule("C12-R3", "E1", 4, "connectednessUnlocked: Connected only past an open non-limited connection and always after one; Limited only past a limited one; never NotConnected after one (stated on where the answer is decided: returns and phi edges)")
 	if f := r3.need("(*" + swarmP + ".Swarm).connectednessUnlocked"); f != nil {
-		connected := constIntObj(c, netP, "Connected")
-		var rets []ssa.Instruction
-		for _, ret := range returnsOf(f) {
-			if v, ok := constInt(retVal(ret, 0)); ok && v == connected {
-				rets = append(rets, ret)
-			}
-		}
-		r3.guard(f, "return Connected", rets, "!c.IsClosed()", edgeBool(isCallResult(0, "(*"+swarmP+".Conn).IsClosed"), false), nil)
-		r3.guard(f, "return Connected", rets, "!c.Stat().Limited", edgeBool(isStatLimited, false), nil)
-		// Limited only when a limited conn was seen: the flag tested is a phi that becomes true only past a Limited==true edge
-		limited := constIntObj(c, netP, "Limited")
-		for _, ret := range returnsOf(f) {
-			if v, ok := constInt(retVal(ret, 0)); ok && v == limited {
-				var flag *ssa.Phi
-				for _, b := range blocksDeep(f) {
-					if i := ifOf(b); i != nil {
-						if p, ok := i.Cond.(*ssa.Phi); ok {
-							flag = p
-						}
-					}
-				}
-				if flag == nil {
-					r3.Fail("connectednessUnlocked: Limited flag", instrPos(ret), "flag not identified", "")
-					continue
-				}
-				r3.guard(f, "return Limited", []ssa.Instruction{ret}, "haveLimited", edgeBool(isValue(flag), true), nil)
-				es := phiEdgesWhere(flag, func(v ssa.Value) bool { b, ok := constBool(v); return ok && b })
-				w, n := (&Cut{Fn: f, TargetEdge: edgeSet(es), EdgeCut: edgeBool(isStatLimited, true)}).Run(c)
-				r3.Check(w == "" && len(es) > 0, "connectednessUnlocked: haveLimited set only past c.Stat().Limited", instrPos(ret), n+1, "", "", w)
-			}
-		}
+		connectednessRules(c, r3, f, "")
 	}
 
 	// ---- R4 ---------------------------------------------------------------
